@@ -13,7 +13,13 @@
    Not modelled: attempts on a draining/closed transport (after GOAWAY / Close the
    code refuses every attempt before assigning an id; [dead] is absorbing here and the
    driver stops there), uint32 wrap of nextID / waitingStreams (needs 2^31 streams or
-   2^32 simultaneous waiters), MaxStreamID draining.  No proofs here. *)
+   2^32 simultaneous waiters), MaxStreamID draining; a change of MAX_HEADER_LIST_SIZE while
+   calls wait (the case runner sends it only while no call is pending: a woken call whose
+   header list has meanwhile become too large returns from its retry with the wake-up token
+   it consumed, without passing it on).  The header-list-size check, SETTINGS frames that
+   carry the parameter twice, a stream close that coincides with context cancellations and
+   senders blocked on the write quota of an open stream live in the case runner ([op_act]):
+   they are sequences of the atomic steps below.  No proofs here. *)
 From Coq Require Import List ZArith Bool.
 From VLib Require Import Codec Machine.
 Import ListNotations.
@@ -186,12 +192,24 @@ Definition parked (s : st) (held : list Z) : list Z := filter (fun t => negb (me
 
 (* cfg [m0] (-1: the server preface has no MAX_CONCURRENT_STREAMS = 2^32-1)
    [1] NewStream   [2; v] SETTINGS   [3; k; how] k-th open stream ends
+   [2; v1; v2] one SETTINGS frame that carries MAX_CONCURRENT_STREAMS twice (the last one is in force)
    [4; k] the context of the k-th parked call is cancelled
    [5; kind] GOAWAY / Close (terminal) -- while calls are held it only releases all of them
-   [6; w] a later SETTINGS frame that does not carry MAX_CONCURRENT_STREAMS (the limit stays)
+   [6; w] a later SETTINGS frame that does not carry MAX_CONCURRENT_STREAMS (the limit stays);
+          w mod 3 = 0: it carries MAX_HEADER_LIST_SIZE = 2^20 + w
    [7] NewStream whose caller is held before its first select if it has to wait
    [8; k] the k-th held call is released (goes on to its select)
-   obs [quota; waiting; #open; #waiting calls; #of them held; #ctx errors; #terminal errors; n;
+   [9; v] SETTINGS MAX_HEADER_LIST_SIZE = v, sent only while no NewStream call is pending
+   [10] NewStream whose header list is big (see [rej])
+   [11; k] the client closes the k-th open stream and at the same instant the contexts of all
+           parked calls are cancelled: if the close posts the wake-up token, the call it is handed
+           to is already committed to the channel case of its select and goes on to its retry;
+           every other parked call leaves on its context
+   [12; k] a sender on the k-th open stream writes more than the stream's write quota and
+           blocks in writeQuota.get (the peer does not read); it must return when the stream ends
+   obs [quota; waiting; #open (streams whose HEADERS the server saw and that have not ended);
+        #waiting calls; #of them held; #ctx errors; #terminal errors; #header-list-size errors;
+        len(activeStreams); #blocked senders; #senders still blocked on a stream that ended; n;
         ids seen by the server this step (n); ids returned by NewStream this step (n)] *)
 Definition nth_mod (k : Z) (l : list Z) : option Z :=
   match l with
@@ -199,44 +217,82 @@ Definition nth_mod (k : Z) (l : list Z) : option Z :=
   | _ => nth_error l (Z.to_nat (k mod Z.of_nat (length l)))
   end.
 
-Definition op_act (s : st) (held : list Z) (tid : Z) (op : word) : option (list act * list Z) :=
+(* what the case runner carries besides the protocol state: the advertised
+   MAX_HEADER_LIST_SIZE (-1: none) and the streams that have a blocked sender *)
+Record ext := mke { hl : Z; wr : list Z }.
+
+(* checkForHeaderListSize (runs BEFORE checkForStreamQuota, so a rejected call touches nothing):
+   the header list of an ordinary call measures between 101 and 1000 bytes, that of a big call
+   between 3001 and 4000 (the driver checks both); limits inside those bands are excluded by
+   op_wf *)
+Definition rej (h : Z) (big : bool) : bool := (0 <=? h) && (h <=? (if big then 3000 else 100)).
+
+Definition new_call (held : list Z) (e : ext) (tid : Z) (big hold : bool)
+  : option (list act * list Z * ext * Z) :=
+  if rej (hl e) big then Some ([], held, e, 1)
+  else Some ([AFirst tid], if hold then tid :: held else held, e, 0).
+
+Definition op_act (s : st) (held : list Z) (e : ext) (tid : Z) (op : word)
+  : option (list act * list Z * ext * Z) :=
   match op with
-  | [1] => Some ([AFirst tid], held)
-  | [2; v] => Some ([ASettings v], held)
-  | [3; k; _] => match nth_mod k (open s) with Some id => Some ([AClose id], held) | None => Some ([], held) end
-  | [4; k] => match nth_mod k (parked s held) with Some t => Some ([ALeave t], held) | None => Some ([], held) end
-  | [5; k] => match held_in s held with [] => Some ([ADead k], held) | _ => Some ([], []) end
-  | [6; _] => Some ([], held)  (* handleSettings without MAX_CONCURRENT_STREAMS: no updateStreamQuota *)
-  | [7] => Some ([AFirst tid], tid :: held)
-  | [8; k] => match nth_mod k (held_in s held) with Some t => Some ([], remove_z t held) | None => Some ([], held) end
+  | [1] => new_call held e tid false false
+  | [2; v] => Some ([ASettings v], held, e, 0)
+  | [2; _; v] => Some ([ASettings v], held, e, 0)   (* RFC 7540 6.5.3: processed in order, the last value wins *)
+  | [3; k; _] => match nth_mod k (open s) with Some id => Some ([AClose id], held, e, 0) | None => Some ([], held, e, 0) end
+  | [4; k] => match nth_mod k (parked s held) with Some t => Some ([ALeave t], held, e, 0) | None => Some ([], held, e, 0) end
+  | [5; k] => match held_in s held with [] => Some ([ADead k], held, e, 0) | _ => Some ([], [], e, 0) end
+  | [6; w] => (* handleSettings without MAX_CONCURRENT_STREAMS: no updateStreamQuota *)
+    Some ([], held, (if w mod 3 =? 0 then mke (1048576 + w) (wr e) else e), 0)
+  | [7] => new_call held e tid false true
+  | [8; k] => match nth_mod k (held_in s held) with Some t => Some ([], remove_z t held, e, 0) | None => Some ([], held, e, 0) end
+  | [9; v] => Some ([], held, match thr s with [] => mke v (wr e) | _ => e end, 0)
+  | [10] => new_call held e tid true false
+  | [11; k] =>
+    match nth_mod k (open s) with
+    | Some id =>
+      let ps := parked s held in
+      let lv := if (quota s + 1 >? 0) && (waiting s >? 0) then tl ps else ps in
+      Some (AClose id :: map ALeave lv, held, e, 0)
+    | None => Some ([], held, e, 0)
+    end
+  | [12; k] =>
+    match nth_mod k (open s) with
+    | Some id => Some ([], held, (if mem id (wr e) then e else mke (hl e) (wr e ++ [id])), 0)
+    | None => Some ([], held, e, 0)
+    end
   | _ => None
   end.
 
-Definition is_leave (l : list act) : Z := match l with [ALeave _] => 1 | _ => 0 end.
+Definition count_leave (l : list act) : Z :=
+  Z.of_nat (length (filter (fun a => match a with ALeave _ => true | _ => false end) l)).
 
-Definition op_step (s : st) (held : list Z) (tid : Z) (op : word) : option (st * list Z * word) :=
-  match op_act s held tid op with
+Definition op_step (s : st) (held : list Z) (e : ext) (tid : Z) (op : word)
+  : option (st * list Z * ext * word) :=
+  match op_act s held e tid op with
   | None => None
-  | Some (acts, held') =>
+  | Some (acts, held', e1, nhdr) =>
     let s1 := exec s acts in
     let s2 := settle (fuel_of s1) held' s1 in
     let new := skipn (length (adm s)) (adm s2) in
-    Some (s2, held',
+    (* closeStream closes s.done: a sender blocked in writeQuota.get returns *)
+    let wr2 := filter (fun id => mem id (open s2)) (wr e1) in
+    Some (s2, held', mke (hl e1) wr2,
           [quota s2; waiting s2; Z.of_nat (length (open s2)); Z.of_nat (length (thr s2));
            Z.of_nat (length (held_in s2 held'));
-           (if dead s2 then 0 else is_leave acts);
+           (if dead s2 then 0 else count_leave acts);
            (if dead s2 then Z.of_nat (length (thr s1)) else 0);
+           nhdr; Z.of_nat (length (open s2)); Z.of_nat (length wr2); 0;
            Z.of_nat (length new)] ++ new ++ new)
   end.
 
-Fixpoint go (s : st) (held : list Z) (tid : Z) (ops : list word) : option (list word) :=
+Fixpoint go (s : st) (held : list Z) (e : ext) (tid : Z) (ops : list word) : option (list word) :=
   match ops with
   | [] => Some []
   | op :: r =>
     if dead s then Some [] else
-    match op_step s held tid op with
-    | Some (s', held', o) =>
-      match go s' held' (tid + 1) r with Some os => Some (o :: os) | None => None end
+    match op_step s held e tid op with
+    | Some (s', held', e', o) =>
+      match go s' held' e' (tid + 1) r with Some os => Some (o :: os) | None => None end
     | None => None
     end
   end.
@@ -245,7 +301,7 @@ Definition max_of_cfg (m0 : Z) : Z := if m0 <? 0 then max_u32 else m0.
 
 Definition run (cfg : word) (ops : list word) : option (list word) :=
   match cfg with
-  | [m0] => go (init (max_of_cfg m0)) [] 0 ops
+  | [m0] => go (init (max_of_cfg m0)) [] (mke (-1) []) 0 ops
   | _ => None
   end.
 
@@ -256,7 +312,9 @@ Definition run (cfg : word) (ops : list word) : option (list word) :=
    clause 2: if a stream opened in this step then #open <= current limit
    clause 3: ids seen by the server are odd and strictly increasing; NewStream returned the same ids
    clause 4: a call is parked in its select only while no quota is free (quota <= 0)
-   clause 5: after GOAWAY / Close no call stays blocked and nothing opens *)
+   clause 5: after GOAWAY / Close no call stays blocked and nothing opens
+   clause 6: the client's table of active streams has exactly the streams that are open on the wire
+   clause 7: no sender stays blocked on write quota after its stream ended *)
 Record trk := mkt { t_max : Z; t_last : Z; t_nh : Z; t_dead : bool }.
 
 Fixpoint incr_odd (last : Z) (l : list Z) : bool :=
@@ -267,17 +325,19 @@ Fixpoint incr_odd (last : Z) (l : list Z) : bool :=
 
 Definition cl_op (t : trk) (op obs : word) : trk * list (Z * Z * bool) :=
   match obs with
-  | q :: w :: no :: nb :: nh :: nctx :: nterm :: n :: ids =>
+  | q :: w :: no :: nb :: nh :: nctx :: nterm :: nhdr :: na :: nw :: nws :: n :: ids =>
     match take_n (Z.to_nat n) ids with
     | Some (sids, cids) =>
-      let mx' := match op with [2; v] => v | _ => t_max t end in
+      let mx' := match op with [2; v] => v | [2; _; v] => v | _ => t_max t end in
       let dd := match op with [5; _] => t_nh t =? 0 | _ => false end in
       let t' := mkt mx' (last sids (t_last t)) nh dd in
       (t', [(3, n, (0 <=? n) && incr_odd (t_last t) sids && word_eqb sids cids);
             (1, q, dd || (q + no =? mx'));
             (2, no, dd || (n <=? 0) || (no <=? mx'));
             (4, nb - nh, dd || (nb - nh <=? 0) || (q <=? 0));
-            (5, nb, negb dd || ((nb =? 0) && (n =? 0)))])
+            (5, nb, negb dd || ((nb =? 0) && (n =? 0)));
+            (6, na, na =? no);
+            (7, nws, nws =? 0)])
     | None => (t, [(0, 0, false)])
     end
   | _ => (t, [(0, 0, false)])
